@@ -20,7 +20,8 @@
      show     every (section, key, value lines) of what econf_readDirs returns for the tree.
 
    The editor is a function on the scratch file's lines; the harness uses editors whose effect does not
-   depend on the writer's layout: keep, append lines at the end, replace everything.                  *)
+   depend on the writer's layout: keep, append lines at the end ("append": entries, "comment": a
+   commented-out assignment, which must stay inert), replace everything.                            *)
 EXTENDS Econf
 
 UsrEtc == <<47, 117, 115, 114, 47, 101, 116, 99>>          \* "/usr/etc"
@@ -35,7 +36,7 @@ TargetOf(root, name, sfx, mode) == IF mode = "full" THEN root \o Etc \o Slash \o
 TreeOf(fs, root, name, sfx) == ReadDirsResultC(fs, ToolDirs(root), name, sfx, ToolD, ToolC, FALSE, FALSE, <<>>)
 
 \* the editor: [kind, lines]
-Edited(text, ed) == CASE ed.kind = "keep" -> text [] ed.kind = "append" -> text \o ed.lines [] OTHER -> ed.lines
+Edited(text, ed) == CASE ed.kind = "keep" -> text [] ed.kind \in {"append", "comment"} -> text \o ed.lines [] OTHER -> ed.lines
 ScratchPath == <<47, 115>>
 EmptyObj(o) == o.ents = <<>> /\ o.secs = <<>>
 \* result: ok (exit status 0), fs (the file system afterwards), obj (what was written; Null when nothing was)
